@@ -307,6 +307,12 @@ pub fn run(ctx: &mut Ctx, c: &Case) -> (String, String) {
             }));
             (r.unwrap_or_else(|_| "Panic".to_string()), "-".to_string())
         }
+        // ---- C16: histories over finders and iterators (reuse, clone, as_ref, into_owned)
+        #[cfg(feature = "alloc")]
+        "hist" => {
+            let r = catch_unwind(AssertUnwindSafe(|| hist_op(c)));
+            (r.unwrap_or_else(|_| "Panic".to_string()), "-".to_string())
+        }
         // ---- memmem
         "mm" => {
             let x = c.bytes("x");
@@ -508,4 +514,108 @@ pub fn build_finder<'n>(cfg: &str, rk: Option<Ranker>, x: &'n [u8]) -> memchr::m
         None => b.build_forward(x),
         Some(r) => b.build_forward_with_ranker(r, x),
     }
+}
+
+/// A history of operations on one Finder / FinderRev and their iterators.
+/// The needle lives in a leaked buffer; once every live object is owned
+/// (after `O`/`W`/`V`) the buffer is overwritten, so an implementation that
+/// kept borrowing it would change its answers.
+#[cfg(feature = "alloc")]
+pub fn hist_op(c: &Case) -> String {
+    use memchr::memmem::{FindIter, FindRevIter, Finder, FinderRev};
+    let x = c.bytes("x");
+    let hs: Vec<Vec<u8>> = c.str("hs").split(',').map(|s| crate::unhex(s)).collect();
+    let hs: &'static Vec<Vec<u8>> = Box::leak(Box::new(hs));
+    let buf: &'static mut [u8] = Box::leak(x.clone().into_boxed_slice());
+    let bufptr = buf.as_mut_ptr();
+    let buflen = buf.len();
+    let needle: &'static [u8] = unsafe { core::slice::from_raw_parts(bufptr, buflen) };
+    let rk = ranker(c.str("rank"));
+    let mut finder: Finder<'static> = build_finder(c.str("cfg"), rk, needle);
+    let mut rfinder: FinderRev<'static> = FinderRev::new(needle);
+    let mut finder_owned = false;
+    let mut fit: Option<(FindIter<'static, 'static>, bool)> = None; // (iterator, owned)
+    let mut rit: Option<(FindRevIter<'static, 'static>, bool)> = None;
+    let mut outs: Vec<String> = Vec::new();
+    let arg = |t: &str| -> usize { t[1..].parse::<usize>().unwrap() };
+    for t in c.str("ops").split(',').filter(|s| !s.is_empty()) {
+        match t.as_bytes()[0] {
+            b'F' => outs.push(opt(finder.find(&hs[arg(t)]))),
+            b'A' => outs.push(opt(finder.as_ref().find(&hs[arg(t)]))),
+            b'R' => outs.push(opt(rfinder.rfind(&hs[arg(t)]))),
+            b'C' => {
+                finder = finder.clone();
+                rfinder = rfinder.clone();
+            }
+            b'O' => {
+                finder = finder.into_owned();
+                rfinder = rfinder.into_owned();
+                finder_owned = true;
+            }
+            b'D' => outs.push((finder.needle() == &x[..] && rfinder.needle() == &x[..]).to_string()),
+            b'I' => {
+                // the iterator borrows the finder's needle: make it independent of `finder` being replaced
+                let it = finder.find_iter(&hs[arg(t)]);
+                let it: FindIter<'static, 'static> = if finder_owned {
+                    it.into_owned()
+                } else {
+                    unsafe { core::mem::transmute(it) }
+                };
+                fit = Some((it, finder_owned));
+            }
+            b'J' => {
+                let it = rfinder.rfind_iter(&hs[arg(t)]);
+                let it: FindRevIter<'static, 'static> = if finder_owned {
+                    it.into_owned()
+                } else {
+                    unsafe { core::mem::transmute(it) }
+                };
+                rit = Some((it, finder_owned));
+            }
+            b'N' => match fit.as_mut() {
+                None => outs.push("NoIter".to_string()),
+                Some((it, _)) => outs.push(opt(it.next())),
+            },
+            b'S' => match fit.as_ref() {
+                None => outs.push("NoIter".to_string()),
+                Some((it, _)) => {
+                    let (lo, hi) = it.size_hint();
+                    outs.push(format!("{}-{}", lo, hi.map(|v| v.to_string()).unwrap_or("inf".to_string())));
+                }
+            },
+            b'K' => {
+                if let Some((it, o)) = fit.take() {
+                    fit = Some((it.clone(), o));
+                }
+            }
+            b'W' => {
+                if let Some((it, _)) = fit.take() {
+                    fit = Some((it.into_owned(), true));
+                }
+            }
+            b'M' => match rit.as_mut() {
+                None => outs.push("NoIter".to_string()),
+                Some((it, _)) => outs.push(opt(it.next())),
+            },
+            b'L' => {
+                if let Some((it, o)) = rit.take() {
+                    rit = Some((it.clone(), o));
+                }
+            }
+            b'V' => {
+                if let Some((it, _)) = rit.take() {
+                    rit = Some((it.into_owned(), true));
+                }
+            }
+            _ => outs.push("BadOp".to_string()),
+        }
+        // the original needle buffer "goes away" as soon as nothing may borrow it any more
+        let all_owned = finder_owned
+            && fit.as_ref().map(|(_, o)| *o).unwrap_or(true)
+            && rit.as_ref().map(|(_, o)| *o).unwrap_or(true);
+        if all_owned {
+            unsafe { core::ptr::write_bytes(bufptr, 0xEE, buflen) };
+        }
+    }
+    outs.join(";")
 }
